@@ -126,8 +126,10 @@ def floatLit (s : Bytes) : Res FloatLit :=
 def FloatLit.bits (l : FloatLit) : Nat :=
   let m := natOfDigitsBase 10 (l.intDigits ++ l.fracDigits)
   -- cap the exponent: beyond ±100000 the outcome (inf / zero) no longer depends on it
-  let eAbs := natOfDigitsBase 10 (l.expDigits.take 7)
-  let eAbs := if l.expDigits.length > 7 then 10000000 else eAbs
+  -- leading zeros of the exponent do not count towards the cap (`1e00000001` is 10)
+  let ed := l.expDigits.dropWhile (· == 0x30)
+  let eAbs := natOfDigitsBase 10 (ed.take 7)
+  let eAbs := if ed.length > 7 then 10000000 else eAbs
   let e : Int := (if l.expNeg then -(eAbs : Int) else (eAbs : Int)) - (l.fracDigits.length : Int)
   -- strip leading zeros cheaply is unnecessary: m is a Nat
   Ieee.roundDecimal l.neg m e
